@@ -172,6 +172,21 @@ def run(rec, tier, seed):
                     rec.case(repr(spec), sample=spec if len(rec.samples) < 2 else None, group=mode)
                     if msg:
                         rec.fail('extend', 'extend', "%s on %r" % (msg, spec), spec, 'C11/extend/post')
+    # unequal sets of term kinds on the two sides (a kind present only in self, only in other, tables with and without terms)
+    KS = [('bond', 'angle', 'dihedral'), ('bond', 'improper'), ('angle', 'dihedral'), ('improper',), ('dihedral', 'improper'), ()]
+    for ka in KS:
+        for kb in KS:
+            if tier == 'quick' and (len(ka) + len(kb)) % 2 == 1 and ka and kb:
+                continue
+            for c in (True, False):
+                a = dict(n=4, seed=0, terms=True, coeffs=c, extra=False, cell='ortho', kinds=list(ka))
+                b = dict(n=4, seed=4, terms=True, coeffs=c, extra=False, cell=None, kinds=list(kb))
+                for m in idmaps(4, 4, 2, rnd):
+                    spec = dict(a=a, b=b, idmap={str(k): v for k, v in m.items()}, times=1)
+                    msg = check(spec)
+                    rec.case(repr(spec), group='kinds')
+                    if msg:
+                        rec.fail('extend', 'extend', "%s on %r" % (msg, spec), spec, 'C11/extend/post')
     # explicit shared offsets: extending a structure by a copy of a fragment of itself with offsets (0,0,0,0,0)
     for a in A:
         spec = dict(a=a, b=dict(a, cell=None), idmap={}, offsets=[0, 0, 0, 0, 0])
